@@ -287,6 +287,18 @@ func importProcessLocal(r *Run, rule string, pkgs ...string) {
 		abs = append(abs, haqqMod+"/"+p)
 	}
 	r.Import(rule+"/C20.", []string{"R1"}, func(r2 *Run) { detProcessLocalWrites(r2, sc, abs...) })
+	// and no write to a package-level variable of a Haqq package from the module's consensus code (C01 R4's detector)
+	var fns []*ssa.Function
+	for _, fn := range sc.S.HaqqFuncs() {
+		pp := fnPkgPath(fn)
+		for _, p := range abs {
+			if pp == p || strings.HasPrefix(pp, p+"/") {
+				fns = append(fns, fn)
+				break
+			}
+		}
+	}
+	r.Import(rule+"/C01.", []string{"R4"}, func(r2 *Run) { detGlobalWrites(r2, sc, fns) })
 }
 
 func detProcessLocalWrites(r *Run, sc *Scopes, onlyPkgs ...string) {
